@@ -19,9 +19,11 @@ namespace Fastor {
 //----------------------------------------------------------------------------------------------------------//
 template<typename T, typename ABI>
 FASTOR_INLINE SIMDVector<T,ABI> min(const SIMDVector<T,ABI> &a, const SIMDVector<T,ABI> &b) {
-    SIMDVector<T,ABI> out;
-    for (FASTOR_INDEX i=0; i<SIMDVector<T,ABI>::Size; i++) { ((T*)&out)[i] = std::min(((T*)&a)[i],((T*)&b)[i]); }
-    return out;
+    constexpr FASTOR_INDEX N_ = SIMDVector<T,ABI>::Size;
+    T av[N_], bv[N_], ov[N_];
+    a.store(av,false); b.store(bv,false);
+    for (FASTOR_INDEX i=0; i<N_; i++) { ov[i] = std::min(av[i],bv[i]); }
+    return SIMDVector<T,ABI>(ov,false);
 }
 template<typename T, typename ABI>
 FASTOR_INLINE SIMDVector<T,ABI> min(const SIMDVector<T,ABI> &a, T b) {
@@ -100,9 +102,11 @@ FASTOR_INLINE SIMDVector<double,simd_abi::avx512> min(const SIMDVector<double,si
 //----------------------------------------------------------------------------------------------------------//
 template<typename T, typename ABI>
 FASTOR_INLINE SIMDVector<T,ABI> max(const SIMDVector<T,ABI> &a, const SIMDVector<T,ABI> &b) {
-    SIMDVector<T,ABI> out;
-    for (FASTOR_INDEX i=0; i<SIMDVector<T,ABI>::Size; i++) { ((T*)&out)[i] = std::max(((T*)&a)[i],((T*)&b)[i]); }
-    return out;
+    constexpr FASTOR_INDEX N_ = SIMDVector<T,ABI>::Size;
+    T av[N_], bv[N_], ov[N_];
+    a.store(av,false); b.store(bv,false);
+    for (FASTOR_INDEX i=0; i<N_; i++) { ov[i] = std::max(av[i],bv[i]); }
+    return SIMDVector<T,ABI>(ov,false);
 }
 template<typename T, typename ABI>
 FASTOR_INLINE SIMDVector<T,ABI> max(const SIMDVector<T,ABI> &a, T b) {
